@@ -1042,3 +1042,38 @@ package render
 //@   use circle_gap_from_the_squared_gap(rad, nv, hh)
 //@   ensures [within-h-squared-over-eight-times-the-inner-radius-of-the-circle] rad - nv <= sq(hh)/(8*(rad - hh)) && rad - nv >= 0
 //@ end
+
+// C20: the set comparison. Canonical puts every triple into its canonical rotation and then
+// sorts once (what sort.Sort does with the strict weak order proved above is the library's,
+// A6); Equals compares the two canonical forms position by position in all three indices.
+//@ func TriangleISet.Canonical
+//@   property C20
+//@   id canonical-triples-then-one-sort
+//@   requires forall k int :: 0 <= k && k < len(ts) ==> ts[k][0] != ts[k][1] && ts[k][1] != ts[k][2] && ts[k][0] != ts[k][2]
+//@   invariant 0 rangeindex >= -1 && rangeindex < len(ts)
+//@   invariant 0 forall k int :: 0 <= k && k < len(ts) ==> ts[k][0] != ts[k][1] && ts[k][1] != ts[k][2] && ts[k][0] != ts[k][2]
+//@   invariant 0 forall k int :: 0 <= k && k <= rangeindex ==> ts[k][0] < ts[k][1] && ts[k][0] < ts[k][2]
+//@   invariant 0 nev("sort.Sort") == 0
+//@   ensures [the-same-slice-is-returned] len(r) == len(ts)
+//@   ensures [sorted-exactly-once-after-every-triple-is-canonical] nev("sort.Sort") == 1
+//@ end
+
+//@ func TriangleISet.Equals
+//@   property C20
+//@   id compares-canonical-forms-in-all-three-indices
+//@   summarise TriangleISet.Canonical canonical-triples-then-one-sort
+//@   prelet n0 = len(ts)
+//@   prelet m0 = len(s)
+//@   requires forall k int :: 0 <= k && k < len(ts) ==> ts[k][0] != ts[k][1] && ts[k][1] != ts[k][2] && ts[k][0] != ts[k][2]
+//@   requires forall k int :: 0 <= k && k < len(s) ==> s[k][0] != s[k][1] && s[k][1] != s[k][2] && s[k][0] != s[k][2]
+//@   invariant 0 rangeindex >= -1 && rangeindex < len(ts) && len(ts) == n0 && len(s) == n0
+//@   invariant 0 forall k int :: 0 <= k && k <= rangeindex ==> ts[k][0] == s[k][0] && ts[k][1] == s[k][1] && ts[k][2] == s[k][2]
+//@   ensures [sets-of-different-size-differ] n0 != m0 ==> !r
+//@   let ca = final(ts)
+//@   let cb = final(s)
+//@   atentry 0 nev("call:TriangleISet.Canonical") == 2
+//@   atentry 0 len(evres("call:TriangleISet.Canonical", 0, 0)) == len(ts) && len(evres("call:TriangleISet.Canonical", 1, 0)) == len(s)
+//@   atentry 0 len(evarg("call:TriangleISet.Canonical", 0, 0)) == n0 && len(evarg("call:TriangleISet.Canonical", 1, 0)) == m0
+//@   ensures [equal-means-every-canonical-position-agrees-in-all-three-indices] forall k int :: r && 0 <= k && k < n0 ==> ca[k][0] == cb[k][0] && ca[k][1] == cb[k][1] && ca[k][2] == cb[k][2]
+//@   ensures [unequal-means-some-canonical-position-differs] exists k int :: r || n0 != m0 || (0 <= k && k < n0 && (ca[k][0] != cb[k][0] || ca[k][1] != cb[k][1] || ca[k][2] != cb[k][2]))
+//@ end
